@@ -3,7 +3,7 @@ import gens
 import impl
 import engine
 import exchange as X
-from docs import (to_text, ro_delete, ready_to_air, metadata_replace, ro_replace, E, story_send, p)
+from docs import (to_text, ro_delete, ready_to_air, metadata_replace, ro_replace, E, story_send, p, story_append)
 from checks.base import corpus_cases, rc_of
 
 LEVEL = 'proof'
@@ -222,6 +222,54 @@ class Check:
                         case = {'kind': 'coll', 'docs': docs, 'strict': strict, 'how': how}
                         if what:
                             vio.append({'what': what, 'case': case, 'impl': str((io.get('err'), io.get('warns'))), 'expected': 'refused'})
+                        mo, = engine.coll_cases([{'docs': docs, 'inc': True, 'strict': strict}])
+                        a = (io.get('err0'), io.get('err'), tuple(io.get('warns') or ()), io.get('tree'))
+                        b = (mo.get('err0'), mo.get('err'), tuple(mo.get('warns') or ()), mo.get('tree'))
+                        if a != b:
+                            dis.append({'case': case, 'impl': str(a[:3]), 'model': str(b[:3]), 'explained': bool(what)})
+            # the roDelete carries a message ID at any rank - lower than the roCreate's, in the middle, the highest: every
+            # message applied after it is refused, whatever ID the roCreate itself has
+            import re
+            for k in range(8 if tier == 'quick' else 60):
+                sids = gens.STORY_IDS[:rng.randrange(1, 4)]
+                ids = rng.sample(range(2, 60), 5)
+                ro_mid, rd_mid = rng.choice(ids), None
+                rest = sorted(i for i in ids if i != ro_mid)
+                rd_mid = rest[k % len(rest)]
+                ro = to_text(gens.make_ro(sids, layout=rng.choice(gens.RO_LAYOUTS), message_id=ro_mid))
+                docs = [ro, to_text(ro_delete(rd_mid))]
+                before = [i for i in rest if i < rd_mid]
+                after = [i for i in rest if i > rd_mid]
+                kinds = {}
+                for j, i in enumerate(before + after):
+                    # appends (their effect shows which messages were applied) alternating with messages that change nothing
+                    # visible here - roReadyToAir, roMetadataReplace - and must be refused all the same
+                    kinds[i] = ['append', 'ready', 'append', 'metadata'][(j + k) % 4]
+                    docs.append(to_text(story_append(i, [gens.new_story('AP%d' % i)]) if kinds[i] == 'append' else
+                                        ready_to_air(i) if kinds[i] == 'ready' else metadata_replace(i, [E('roChannel', text='ch%d' % i)])))
+                rng.shuffle(docs)
+                for strict in (True, False):
+                    for how in ('strings', 'files', 's3'):
+                        io = impl.run_coll(docs, True, strict, how=how, tmpdir=tmp)
+                        n += 1
+                        what = None
+                        if 'err0' in io:
+                            what = 'a valid collection was rejected (%s)' % io['err0']
+                        else:
+                            comp = X.find(io['tree'], 'mosromgrmeta') is not None
+                            text_ = X.tree_to_string(io['tree'])
+                            appended = [i for i in rest if i != rd_mid and ('<storyID>AP%d</storyID>' % i) in text_]
+                            if not comp:
+                                what = 'the roDelete (message %d of %r, roCreate %d) was not applied: the merged running order is not completed' % (rd_mid, sorted(ids), ro_mid)
+                            elif appended != [i for i in before if kinds[i] == 'append']:
+                                what = 'messages %r were applied, expected exactly those before the roDelete: %r' % (appended, before)
+                            elif strict and after and io['err'] != 'MosCompletedMergeError':
+                                what = 'strict merge: %r after the roDelete, expected MosCompletedMergeError' % (io['err'],)
+                            elif not strict and io['warns'].count('MosMergeNonStrictWarning') != len(after):
+                                what = 'non-strict merge: %d messages after the roDelete, %d MosMergeNonStrictWarning' % (len(after), io['warns'].count('MosMergeNonStrictWarning'))
+                        case = {'kind': 'coll', 'docs': docs, 'strict': strict, 'how': how}
+                        if what:
+                            vio.append({'what': what, 'case': case, 'impl': str((io.get('err0'), io.get('err'), io.get('warns'))), 'expected': 'completed after message %d' % rd_mid})
                         mo, = engine.coll_cases([{'docs': docs, 'inc': True, 'strict': strict}])
                         a = (io.get('err0'), io.get('err'), tuple(io.get('warns') or ()), io.get('tree'))
                         b = (mo.get('err0'), mo.get('err'), tuple(mo.get('warns') or ()), mo.get('tree'))
